@@ -15,7 +15,7 @@ import (
 // bytes than asked but every byte it returns must be that byte, it must advance, and it must not fail
 // on a well-formed file.
 func c20FileRead(bs uint32, nExt int) {
-	L := vp.Bound("readlen", 6, 12)
+	L := vp.Bound("readlen", 5, 12)
 	dev := vpdev.NewMemDev("disk", -1)
 	dev.UF = true
 	dev.NoWrites = true
@@ -58,27 +58,20 @@ func c20FileRead(bs uint32, nExt int) {
 	if want < 0 {
 		want = 0
 	}
-	// classes of the recorded findings
-	holeInRange := false // some requested position is not mapped by any extent
-	afterExtent := false // the offset lies, unaligned, in the block that follows the end of an extent
+	// class of the recorded finding KF-C20-1: some requested position is not mapped by any extent.
+	// (branch-free: one unsigned comparison per range test, bits combined with & and |)
+	b2i := func(c bool) int { return vp.IteInt(c, 1, 0) }
+	hole := 0
 	for i := 0; i < L; i++ {
 		pos := off + int64(i)
-		if int64(i) < want {
-			in0 := pos >= lo0 && pos < hi0
-			in1 := nExt == 2 && pos >= lo1 && pos < hi1
-			if !in0 && !in1 {
-				holeInRange = true
-			}
+		in0 := b2i(uint64(pos-lo0) < uint64(hi0-lo0))
+		in1 := 0
+		if nExt == 2 {
+			in1 = b2i(uint64(pos-lo1) < uint64(hi1-lo1))
 		}
+		hole |= b2i(int64(i) < want) & (1 ^ in0) & (1 ^ in1)
 	}
-	if off%B != 0 {
-		if off/B == hi0/B {
-			afterExtent = true
-		}
-		if nExt == 2 && off/B == hi1/B {
-			afterExtent = true
-		}
-	}
+	holeInRange := hole != 0
 	vp.AllocCap(L + 2)
 	vp.Unwind(4)
 	vp.KnownPanic("KF-C20-2", "file.go:73")
@@ -101,16 +94,14 @@ func c20FileRead(bs uint32, nExt int) {
 			vp.AssertUnless("KF-C20-1", holeInRange, n > 0, "Read makes progress (0, nil forever would hang io.ReadAll)")
 		}
 	}
-	_ = afterExtent
 	for i := 0; i < L; i++ {
 		if i < n {
 			pos := off + int64(i)
-			var exp byte
-			in0 := pos >= lo0 && pos < hi0
-			if in0 {
-				exp = dev.ByteAt(int64(s0)*B + (pos - lo0))
-			} else if nExt == 2 && pos >= lo1 && pos < hi1 {
-				exp = dev.ByteAt(int64(s1)*B + (pos - lo1))
+			in0 := uint64(pos-lo0) < uint64(hi0-lo0)
+			exp := vp.IteU8(in0, dev.ByteAt(int64(s0)*B+(pos-lo0)), 0)
+			if nExt == 2 {
+				in1 := uint64(pos-lo1) < uint64(hi1-lo1)
+				exp = vp.IteU8(in0, exp, vp.IteU8(in1, dev.ByteAt(int64(s1)*B+(pos-lo1)), 0))
 			}
 			vp.AssertUnless("KF-C20-1", holeInRange, p[i] == exp, "returned byte = device byte of the mapping extent, 0 in a hole")
 		}
@@ -123,8 +114,18 @@ func c20FileRead(bs uint32, nExt int) {
 	}
 }
 
-func VP_C20_fileread_tiny_1ext() { c20FileRead(4, 1) }
 func VP_C20_fileread_tiny_2ext() { c20FileRead(4, 2) }
-func VP_C20_fileread_1k_2ext()   { c20FileRead(1024, 2) }
-func VP_C20_fileread_4k_2ext()   { c20FileRead(4096, 2) }
-func VP_C20_fileread_2k_1ext()   { c20FileRead(2048, 1) }
+func VP_C20_fileread_1k_1ext()   { c20FileRead(1024, 1) }
+func VP_C20_fileread_tiny_1ext() { c20ThoroughOnly(func() { c20FileRead(4, 1) }) }
+func VP_C20_fileread_1k_2ext()   { c20ThoroughOnly(func() { c20FileRead(1024, 2) }) }
+func VP_C20_fileread_4k_2ext()   { c20ThoroughOnly(func() { c20FileRead(4096, 2) }) }
+func VP_C20_fileread_2k_1ext()   { c20ThoroughOnly(func() { c20FileRead(2048, 1) }) }
+
+// c20ThoroughOnly runs f in the thorough tier only.
+func c20ThoroughOnly(f func()) {
+	if vp.Thorough() {
+		f()
+	} else {
+		vp.Cover("thorough tier only")
+	}
+}
